@@ -23,6 +23,8 @@ type Obligation struct {
 	Canary    string
 	LemmaIndex int // for lemma obligations: only lemmas declared earlier may be used (-1: all)
 	LemmasUsed []string // proved lemmas that were available as axioms in this obligation's query
+	// counterexample replay (scalar functions only; nil otherwise)
+	Replay *ReplaySpec
 	// results
 	Res *SolveResult
 }
@@ -103,6 +105,9 @@ type Exec struct {
 	nPre map[string]int
 	nNoPanic int
 	nGuard   int
+	entryState *State
+	curRets    []*Term
+	replayOff  bool
 	discardCall *ast.CallExpr // the call of the expression statement being executed (its results are discarded)
 	closureVar map[types.Object]*FuncInfo
 	aliasHook  func(*State)
@@ -215,7 +220,25 @@ func (x *Exec) oblige(s *State, kind, label string, goal *Term, text, pos string
 	}
 	hyps := append([]*Term(nil), s.pc...)
 	hyps = append(hyps, x.guard...)
-	x.obls = append(x.obls, &Obligation{Func: x.fi.Name, Name: name, Kind: kind, Hyps: hyps, Goal: goal, Mode: x.mode, Text: text, Pos: pos, LemmaIndex: -1})
+	ob := &Obligation{Func: x.fi.Name, Name: name, Kind: kind, Hyps: hyps, Goal: goal, Mode: x.mode, Text: text, Pos: pos, LemmaIndex: -1}
+	if (kind == "ensures" || kind == "nopanic") && x.entryState != nil && !x.replayOff {
+		func() {
+			defer func() {
+				if r := recover(); r != nil {
+					x.replayOff = true
+				}
+			}()
+			var rets []*Term
+			if kind == "ensures" {
+				rets = x.curRets
+			}
+			ob.Replay = x.buildReplaySpec(x.entryState, rets)
+			if ob.Replay == nil {
+				x.replayOff = true
+			}
+		}()
+	}
+	x.obls = append(x.obls, ob)
 }
 
 func (x *Exec) uniq(name string) string {
@@ -340,6 +363,7 @@ func verifyFunction(u *Universe, fi *FuncInfo, c *Contract) (obls []*Obligation,
 	}
 	// snapshot entry state for old(): take after param binding
 	entry := st.clone()
+	x.entryState = entry
 	// requires
 	env := x.envFor(st, entry, fi.Body.Pos())
 	for _, r := range c.Requires {
@@ -1220,6 +1244,7 @@ func (x *Exec) doReturn(s *State, vals []*Term, entry *State, pos token.Pos) {
 	for i, n := range x.resultNames {
 		env.bound[n] = withType(vals[i], x.resultTypes[i])
 	}
+	x.curRets = vals
 	for i, e := range x.c.Ensures {
 		label := e.Label
 		if label == "" {
